@@ -98,6 +98,7 @@ func runLoaded(ld *loaded, spec *HarnessSpec, o runOpts) *OblResult {
 	theExec = ex
 	curParams = o.params
 	preemptMem = o.params["PREEMPT_MEM"] == 1
+	realIPString = o.params["REAL_IPSTRING"] == 1
 	if o.tape == nil {
 		s, err := NewSolver(o.solver, o.timeout)
 		if err != nil {
